@@ -5,7 +5,6 @@ import (
 	"fmt"
 	"hash/fnv"
 	"math/rand"
-	"strconv"
 	"strings"
 
 	"verif/harness/internal/smf"
@@ -160,8 +159,7 @@ func (d Doc) YAML() []byte {
 }
 
 // restyleYAML re-writes a document in another YAML style that denotes the same data, chosen by a hash of the document:
-// flow mappings, CRLF line ends with a document marker and comments, keys in reverse order with integer durations as bare
-// numbers, anchors and aliases for repeated duration lists. Half of the documents keep the library's default style.
+// flow mappings, CRLF line ends with a document marker and comments, keys in reverse order, anchors and aliases for repeated duration lists. Half of the documents keep the library's default style.
 func restyleYAML(b []byte, data any, force int) []byte {
 	h := fnv.New32a()
 	h.Write(b)
@@ -197,13 +195,7 @@ func restyleYAML(b []byte, data any, force int) []byte {
 			rev := []*yaml.Node{}
 			for j := len(it.Content) - 2; j >= 0; j -= 2 {
 				k, v := it.Content[j], it.Content[j+1]
-				if k.Value == "values" && v.Kind == yaml.SequenceNode {
-					for _, x := range v.Content {
-						if _, err := strconv.Atoi(x.Value); err == nil && !strings.HasPrefix(x.Value, "0") {
-							x.Tag, x.Style = "!!int", 0
-						}
-					}
-				}
+
 				rev = append(rev, k, v)
 			}
 			it.Content = rev
@@ -429,15 +421,10 @@ func randomDoc(rng *rand.Rand, o GenOpt) Doc {
 				in.Mrk = o.Texts[rng.Intn(len(o.Texts))]
 			}
 		}
-		if rng.Intn(16) == 0 {
-			in.MetaDecoy = true
-		}
-		switch rng.Intn(16) { // the same numbers spelled with leading zeros / the bpm as a quoted string
-		case 0, 1:
-			in.Pad = 1 + rng.Intn(3)
-		case 2:
-			in.Pad = -1
-		}
+		// (leading zeros on YAML numerals, a quoted bpm and free metadata named like settings were drawn here for a while;
+		// no property says how an instances document spells its numbers, so they are no longer: DESIGN 10.5)
+		_ = rng.Intn(16)
+		_ = rng.Intn(16)
 		d = append(d, in)
 	}
 	return d
